@@ -1521,6 +1521,11 @@ def check_density_route(ctx, case):
             judge(label, obj, 'own', carried, {}, how)
             mirror_base.pop('own', None)
         if before is not None:
+            # a call the library refuses (the beam energy was forgotten), caught by the caller, must leave the
+            # caller's Formula object as it was, too
+            for kwname in ROUTE_KEYWORDS:
+                _v, refused = _try(xsf.xray_sld, obj, **{kwname: case[kwname] * 3})
+                ctx.count('route.refused_call.' + ('raised' if refused is not None else 'answered'))
             ctx.evaluated(1, 'route_formula_unchanged')
             after = _formula_picture(obj)
             if after != before:
